@@ -4,20 +4,29 @@
 usage: tools/run_seeded.py <seeded-id> [--tier quick] [--props C05,C04]"""
 import argparse, json, os, subprocess, sys, time
 HERE = os.path.dirname(os.path.dirname(os.path.abspath(__file__)))
-ap = argparse.ArgumentParser(); ap.add_argument('sid'); ap.add_argument('--tier', default='quick'); ap.add_argument('--props', default='')
+ap = argparse.ArgumentParser(); ap.add_argument('sid'); ap.add_argument('--tier', default='quick'); ap.add_argument('--props', default=''); ap.add_argument('--inplace', action='store_true', help='apply to /repo itself (final protocol); default: scratch worktree + VERIF_REPO')
 a = ap.parse_args()
 d = os.path.join(HERE, 'seeded', a.sid)
 meta = json.load(open(os.path.join(d, 'meta.json')))
 props = a.props.split(',') if a.props else [meta['property']]
-st = subprocess.run(['git', '-C', '/repo', 'status', '--porcelain', '--untracked-files=no'], capture_output=True, text=True).stdout.strip()
-if st:
-    sys.exit('refusing: /repo has uncommitted changes:\n' + st)
-subprocess.check_call(['git', '-C', '/repo', 'apply', os.path.join(d, 'patch.diff')])
+env = dict(os.environ)
+if a.inplace:
+    st = subprocess.run(['git', '-C', '/repo', 'status', '--porcelain', '--untracked-files=no'], capture_output=True, text=True).stdout.strip()
+    if st:
+        sys.exit('refusing: /repo has uncommitted changes:\n' + st)
+    subprocess.check_call(['git', '-C', '/repo', 'apply', os.path.join(d, 'patch.diff')])
+else:
+    wt = '/tmp/seedrun/' + a.sid
+    subprocess.run(['git', '-C', '/repo', 'worktree', 'remove', '--force', wt], capture_output=True)
+    os.makedirs('/tmp/seedrun', exist_ok=True)
+    subprocess.check_call(['git', '-C', '/repo', 'worktree', 'add', '-q', wt, 'HEAD'])
+    subprocess.check_call(['git', '-C', wt, 'apply', os.path.join(d, 'patch.diff')])
+    env.update(VERIF_REPO=wt, VERIF_WORK_TAG='_seed_' + a.sid, VERIF_EVIDENCE_DIR='/tmp/seedrun/evidence_' + a.sid, VERIF_NCPU='6')
 results = {}
 try:
     for pid in props:
         t0 = time.time()
-        p = subprocess.run([sys.executable, os.path.join(HERE, 'run.py'), 'check', pid, '--tier', a.tier], cwd=HERE, capture_output=True, text=True)
+        p = subprocess.run([sys.executable, os.path.join(HERE, 'run.py'), 'check', pid, '--tier', a.tier], cwd=HERE, capture_output=True, text=True, env=env)
         lines = [l for l in p.stdout.splitlines() if l.startswith(('VIOLATION', 'KNOWN-FINDING', '['))]
         results[pid] = {'exit': p.returncode, 'lines': lines[-4:], 'wall_s': round(time.time() - t0, 1)}
         print(pid, p.returncode, lines[-3:])
@@ -30,7 +39,11 @@ try:
                 except OSError:
                     pass
 finally:
-    subprocess.check_call(['git', '-C', '/repo', 'checkout', '--', '.'])
+    if a.inplace:
+        subprocess.check_call(['git', '-C', '/repo', 'checkout', '--', '.'])
+    else:
+        subprocess.run(['git', '-C', '/repo', 'worktree', 'remove', '--force', wt])
+        import shutil; shutil.rmtree(env['VERIF_EVIDENCE_DIR'], ignore_errors=True)
 meta.setdefault('check_results', {})[a.tier] = results
 meta['detected'] = any(r['exit'] == 1 and any(l.startswith('VIOLATION') for l in r['lines']) for r in results.values())
 json.dump(meta, open(os.path.join(d, 'meta.json'), 'w'), indent=1)
